@@ -1,35 +1,47 @@
 (* C15 - OSCORE anti-replay state of a recipient context.
 
    Transcribed from
-     src/oscore/oscore.c    oscore_validate_sender_seq, oscore_roll_back_seq
-     src/coap_oscore.c      coap_oscore_decrypt_pdu, request branch: RFC 8613 8.2 step 3
-                            (validation gated on initial_state), the assignment to last_seq,
-                            rollback on decryption failure, appendix B.1.2 Echo handling.
+     src/oscore/oscore.c          oscore_validate_sender_seq, oscore_roll_back_seq
+     src/coap_oscore.c            coap_oscore_decrypt_pdu, request branch: RFC 8613 8.2 step 3
+                                  (validation gated on initial_state), rollback on decryption
+                                  failure, arming of the window by the first authenticated
+                                  request, appendix B.1.2 Echo handling
+     src/oscore/oscore_context.c  oscore_add_recipient (memset 0, initial_state = 1),
+                                  oscore_derive_ctx (replay_window 0 -> default)
 
-   The code as found violated the property in five places.  Each repair is a flag of
-   [rp_variant]: [rp_orig] (all flags off) is the code as found, [rp_fixed] (all on) is the
-   code after the fix commits in /repo.  The tie (harness/h_replay.c) compares the C with
-   [rp_fixed]; the [_refuted] theorems are about [rp_orig] and the single-flag-off variants.
+   The code as found violated the property in seven places.  Each repair is a flag of
+   [rp_variant]: [rp_orig] (all flags off) is the code as found at /repo 74963ff, [rp_fixed]
+   (all on) is the code after the seven "fix:" commits.  The tie (harness/h_replay.c) compares
+   the C with [rp_fixed]; the [_refuted] theorems are about [rp_orig] and the variants with a
+   single repair missing.
 
    Definitions only.  All global names carry the prefix rp_. *)
 From Coq Require Import ZArith List Bool.
 Import ListNotations.
 Local Open Scope Z_scope.
 
-(* OSCORE_SEQ_MAX = ((uint64_t)1 << 40) - 1; the driver prints the compiled value and the
-   check compares it with this one on every run *)
+(* OSCORE_SEQ_MAX = ((uint64_t)1 << 40) - 1 and COAP_OSCORE_DEFAULT_REPLAY_WINDOW = 32; the
+   driver prints the compiled values and the check compares them with these on every run *)
 Definition rp_seq_max : Z := 2 ^ 40 - 1.
+Definition rp_default_window : Z := 32.
 Definition rp_two64 : Z := 2 ^ 64.
 
+(* osc_ctx->replay_window_size = conf->replay_window ? conf->replay_window : DEFAULT *)
+Definition rp_cfg_window (w : Z) : Z := if w =? 0 then rp_default_window else w.
+
 Record rp_variant := {
-  rp_v_bitidx : bool;      (* bit k of the window stands for last_seq - k when testing, too *)
+  rp_v_bitidx : bool;      (* bit k of the window stands for last_seq - k when testing, too;
+                              a window of size W holds last_seq-W+1 .. last_seq *)
   rp_v_shguard : bool;     (* a jump of >= 64 clears the window instead of shifting by it *)
   rp_v_nooverwrite : bool; (* the call site does not assign last_seq before decryption *)
   rp_v_rbflag : bool;      (* rollback restores window and last_seq together *)
-  rp_v_arm : bool          (* without B.1.2 the first authenticated request arms the window *)
+  rp_v_arm : bool;         (* without B.1.2 the first authenticated request arms the window *)
+  rp_v_resp_rb : bool;     (* a response that fails decryption gets the window rolled back, too *)
+  rp_v_resp_nowrite : bool (* the response branch does not write last_seq before decryption (and
+                              tests the received number, not the stored one, against SEQ_MAX) *)
 }.
-Definition rp_orig : rp_variant := Build_rp_variant false false false false false.
-Definition rp_fixed : rp_variant := Build_rp_variant true true true true true.
+Definition rp_orig : rp_variant := Build_rp_variant false false false false false false false.
+Definition rp_fixed : rp_variant := Build_rp_variant true true true true true true true.
 
 (* oscore_recipient_ctx_t, the anti-replay part.  [rp_undef] is not a C field: it records
    that a shift by >= 64 bits (undefined behaviour in C) has been evaluated. *)
@@ -45,11 +57,14 @@ Record rp_state := {
 (* oscore_add_recipient: memset 0, initial_state = 1 *)
 Definition rp_init : rp_state := Build_rp_state 0 0 0 0 true false.
 
-(* w << s on a uint64_t, s < 64 *)
-Definition rp_shl64 (w s : Z) : Z := (Z.shiftl w s) mod rp_two64.
+(* w << s on a uint64_t; the second component reports a shift count >= 64 (undefined in C;
+   the value given then is what x86-64 computes: the count is taken modulo 64) *)
+Definition rp_shl64 (w s : Z) : Z * bool :=
+  if s <? 64 then ((Z.shiftl w s) mod rp_two64, false)
+  else ((Z.shiftl w (s mod 64)) mod rp_two64, true).
 
-Definition rp_set_window (s : rp_state) (last win : Z) : rp_state :=
-  Build_rp_state last win (rp_rb_last s) (rp_rb_win s) (rp_initial s) (rp_undef s).
+Definition rp_set_window (s : rp_state) (last win : Z) (ub : bool) : rp_state :=
+  Build_rp_state last win (rp_rb_last s) (rp_rb_win s) (rp_initial s) (rp_undef s || ub).
 
 (* oscore_validate_sender_seq: (return value, context afterwards) *)
 Definition rp_validate (v : rp_variant) (W : Z) (s : rp_state) (seq : Z) : bool * rp_state :=
@@ -62,19 +77,23 @@ Definition rp_validate (v : rp_variant) (W : Z) (s : rp_state) (seq : Z) : bool 
       (true, Build_rp_state seq 1 (rp_rb_last s1) (rp_rb_win s1) false (rp_undef s1))
     else if seq >? rp_last s1 then
       let shift := seq - rp_last s1 in
-      if shift >=? 64 then
-        if rp_v_shguard v then (true, rp_set_window s1 seq 1)
-        else
-          (* undefined in C; x86-64 shifts by the low six bits of the count *)
-          (true, Build_rp_state seq (Z.lor (rp_shl64 (rp_win s1) (shift mod 64)) 1)
-                                (rp_rb_last s1) (rp_rb_win s1) (rp_initial s1) true)
-      else (true, rp_set_window s1 seq (Z.lor (rp_shl64 (rp_win s1) shift) 1))
+      if rp_v_shguard v then
+        (* shift < 64 ? window << shift : 0 *)
+        let w := if shift <? 64 then fst (rp_shl64 (rp_win s1) shift) else 0 in
+        (true, rp_set_window s1 seq (Z.lor w 1) false)
+      else
+        let '(w, ub) := rp_shl64 (rp_win s1) shift in
+        (true, rp_set_window s1 seq (Z.lor w 1) ub)
     else if seq =? rp_last s1 then (false, s1)
     else
       let shift := if rp_v_bitidx v then rp_last s1 - seq else rp_last s1 - seq - 1 in
-      if (shift >? W) || (shift >? 63) then (false, s1)
-      else if Z.testbit (rp_win s1) shift then (false, s1)
-      else (true, rp_set_window s1 (rp_last s1) (Z.lor (rp_win s1) (2 ^ shift))).
+      let outside := if rp_v_bitidx v then shift >=? W else shift >? W in
+      if outside || (shift >? 63) then (false, s1)
+      else
+        (* pattern = 1ULL << shift, shift <= 63 here *)
+        let '(pat, ub) := rp_shl64 1 shift in
+        if negb (Z.land (rp_win s1) pat =? 0) then (false, rp_set_window s1 (rp_last s1) (rp_win s1) ub)
+        else (true, rp_set_window s1 (rp_last s1) (Z.lor (rp_win s1) pat) ub).
 
 (* oscore_roll_back_seq *)
 Definition rp_rollback (v : rp_variant) (s : rp_state) : rp_state :=
@@ -90,47 +109,104 @@ Definition rp_rollback (v : rp_variant) (s : rp_state) : rp_state :=
                         (rp_undef s1).
 
 (* what arrives: the sequence number in the Partial IV, whether the AEAD tag verifies under the
-   recipient key, and (for a message that decrypts) what its inner Echo option looks like *)
-Inductive rp_auth := Genuine | Forged.
-Inductive rp_echo := EchoNone | EchoOk | EchoBad.
-Record rp_msg := { rp_m_seq : Z; rp_m_auth : rp_auth; rp_m_echo : rp_echo }.
+   recipient key, and (for a message that decrypts) what its inner Echo option looks like.
+   [RpUnroutable]: the message never gets as far as RFC 8613 8.2 step 3 for this recipient
+   context - the OSCORE option cannot be decoded or has no kid (4.02), or no security context
+   matches kid / kid context (4.01 "Security context not found"). *)
+Inductive rp_auth := RpGenuine | RpForged | RpUnroutable.
+Inductive rp_echo := RpEchoNone | RpEchoOk | RpEchoBad.
+(* a request, or a response that carries a Partial IV of its own (Observe notification, B.1.2
+   challenge) for an outstanding request of this endpoint: it is checked against the same
+   recipient context ([RpUnroutable] for a response: no association for its token) *)
+Inductive rp_kind := RpRequest | RpResponse.
+Record rp_msg := { rp_m_seq : Z; rp_m_auth : rp_auth; rp_m_echo : rp_echo; rp_m_kind : rp_kind }.
 
 Inductive rp_verdict :=
-| Accept        (* decrypted PDU returned: the request reaches the handler *)
-| RejReplay     (* 4.01 "Replay detected" *)
-| RejDecrypt    (* 4.00 "Decryption failed" *)
-| RejChallenge  (* B.1.2: 4.01 with a fresh Echo value *)
-| RejEchoBad.   (* B.1.2: Echo present but wrong: dropped *)
+| RpAccept        (* decrypted PDU returned: the request reaches the handler *)
+| RpRejReplay     (* 4.01 "Replay detected" *)
+| RpRejDecrypt    (* 4.00 "Decryption failed" *)
+| RpRejChallenge  (* B.1.2: 4.01 with a fresh Echo value *)
+| RpRejEchoBad    (* B.1.2: Echo present but wrong: dropped *)
+| RpRejUnroutable  (* 4.02 / 4.01 before any recipient context is touched *)
+| RpAcceptUnchecked. (* a response delivered while the context is in its initial state: nothing
+                        was checked and nothing is recorded (a client that never serves requests
+                        of the peer stays in that state) *)
+
+(* the validation done after decryption while the context is in its initial state *)
+Definition rp_arm (v : rp_variant) (W : Z) (s : rp_state) (seq : Z) : rp_verdict * rp_state :=
+  let '(ok, s1) := rp_validate v W s seq in
+  if ok then (RpAccept, s1) else (RpRejReplay, s1).
 
 (* one request through coap_oscore_decrypt_pdu, in the order of the C *)
-Definition rp_recv (v : rp_variant) (W : Z) (b12 : bool) (s : rp_state) (m : rp_msg)
+Definition rp_recv_req (v : rp_variant) (W : Z) (b12 : bool) (s : rp_state) (m : rp_msg)
   : rp_verdict * rp_state :=
   let seq := rp_m_seq m in
+  match rp_m_auth m with
+  | RpUnroutable => (RpRejUnroutable, s)      (* 8.2 step 2 fails *)
+  | _ =>
   (* 8.2 step 3: if (rcp_ctx->initial_state == 0 && !oscore_validate_sender_seq(...)) *)
   let '(ok, s1) := if rp_initial s then (true, s) else rp_validate v W s seq in
-  if negb ok then (RejReplay, s1)
+  if negb ok then (RpRejReplay, s1)
   else
-    (* rcp_ctx->last_seq = incoming_seq; *)
+    (* as found: rcp_ctx->last_seq = incoming_seq; *)
     let s2 := if rp_v_nooverwrite v then s1
               else Build_rp_state seq (rp_win s1) (rp_rb_last s1) (rp_rb_win s1)
                                   (rp_initial s1) (rp_undef s1) in
     match rp_m_auth m with
-    | Forged => (RejDecrypt, rp_rollback v s2)       (* 8.2 step 6 fails *)
-    | Genuine =>
+    | RpUnroutable => (RpRejUnroutable, s)
+    | RpForged => (RpRejDecrypt, rp_rollback v s2)       (* 8.2 step 6 fails *)
+    | RpGenuine =>
       if rp_initial s2 then
         if b12 then
           match rp_m_echo m with
-          | EchoOk => let '(ok3, s3) := rp_validate v W s2 seq in
-                      if ok3 then (Accept, s3) else (RejReplay, s3)
-          | EchoBad => (RejEchoBad, s2)
-          | EchoNone => (RejChallenge, s2)
+          | RpEchoOk => rp_arm v W s2 seq
+          | RpEchoBad => (RpRejEchoBad, s2)
+          | RpEchoNone => (RpRejChallenge, s2)
           end
-        else if rp_v_arm v then
-          let '(ok3, s3) := rp_validate v W s2 seq in
-          if ok3 then (Accept, s3) else (RejReplay, s3)
-        else (Accept, s2)
-      else (Accept, s2)
-    end.
+        else if rp_v_arm v then rp_arm v W s2 seq
+        else (RpAccept, s2)
+      else (RpAccept, s2)
+    end
+  end.
+
+(* one response with a Partial IV of its own through coap_oscore_decrypt_pdu (8.4) *)
+Definition rp_recv_resp (v : rp_variant) (W : Z) (s : rp_state) (m : rp_msg)
+  : rp_verdict * rp_state :=
+  let seq := rp_m_seq m in
+  match rp_m_auth m with
+  | RpUnroutable => (RpRejUnroutable, s)      (* no association for the token *)
+  | _ =>
+  (* if (rcp_ctx->initial_state == 0 && !oscore_validate_sender_seq(...)) goto error *)
+  let validated := negb (rp_initial s) in
+  let '(ok, s1) := if rp_initial s then (true, s) else rp_validate v W s seq in
+  if negb ok then (RpRejReplay, s1)
+  else
+    let '(toobig, s2) :=
+      if rp_v_resp_nowrite v then (seq >=? rp_seq_max, s1)
+      else
+        (* as found: if (rcp_ctx->last_seq >= OSCORE_SEQ_MAX) goto error;
+                     if (last_seq > rcp_ctx->last_seq) rcp_ctx->last_seq = last_seq; *)
+        (rp_last s1 >=? rp_seq_max,
+         if seq >? rp_last s1
+         then Build_rp_state seq (rp_win s1) (rp_rb_last s1) (rp_rb_win s1) (rp_initial s1)
+                             (rp_undef s1)
+         else s1) in
+    if toobig then (RpRejReplay, s1)
+    else
+      match rp_m_auth m with
+      | RpUnroutable => (RpRejUnroutable, s)
+      | RpForged =>                               (* 8.4 step 5 fails *)
+        (RpRejDecrypt, if rp_v_resp_rb v && validated then rp_rollback v s2 else s2)
+      | RpGenuine => if rp_initial s2 then (RpAcceptUnchecked, s2) else (RpAccept, s2)
+      end
+  end.
+
+Definition rp_recv (v : rp_variant) (W : Z) (b12 : bool) (s : rp_state) (m : rp_msg)
+  : rp_verdict * rp_state :=
+  match rp_m_kind m with
+  | RpRequest => rp_recv_req v W b12 s m
+  | RpResponse => rp_recv_resp v W s m
+  end.
 
 (* a history: verdict of every step and the final state *)
 Fixpoint rp_run (v : rp_variant) (W : Z) (b12 : bool) (s : rp_state) (h : list rp_msg)
@@ -142,23 +218,24 @@ Fixpoint rp_run (v : rp_variant) (W : Z) (b12 : bool) (s : rp_state) (h : list r
   end.
 
 Definition rp_is_accept (r : rp_verdict) : bool :=
-  match r with Accept => true | _ => false end.
+  match r with RpAccept => true | _ => false end.
 
 (* the sequence numbers that reached the handler, in order of arrival *)
-Fixpoint rp_accepted (v : rp_variant) (W : Z) (b12 : bool) (s : rp_state) (h : list rp_msg)
-  : list Z :=
-  match h with
-  | [] => []
-  | m :: t => let '(r, s1) := rp_recv v W b12 s m in
-              let rest := rp_accepted v W b12 s1 t in
-              if rp_is_accept r then rp_m_seq m :: rest else rest
+Fixpoint rp_accepted_of (h : list rp_msg) (rs : list rp_verdict) : list Z :=
+  match h, rs with
+  | m :: t, r :: rt => if rp_is_accept r then rp_m_seq m :: rp_accepted_of t rt
+                       else rp_accepted_of t rt
+  | _, _ => []
   end.
+
+Definition rp_accepted (v : rp_variant) (W : Z) (b12 : bool) (s : rp_state) (h : list rp_msg)
+  : list Z := rp_accepted_of h (fst (rp_run v W b12 s h)).
 
 (* the part of the state that decides later verdicts ("replay window and sequence state") *)
 Definition rp_obs (s : rp_state) : Z * Z * bool := (rp_last s, rp_win s, rp_initial s).
 
 Definition rp_is_genuine (m : rp_msg) : bool :=
-  match rp_m_auth m with Genuine => true | Forged => false end.
+  match rp_m_auth m with RpGenuine => true | RpForged | RpUnroutable => false end.
 
 (* verdicts of the genuine messages only *)
 Fixpoint rp_genuine_verdicts (h : list rp_msg) (rs : list rp_verdict) : list rp_verdict :=
@@ -173,4 +250,77 @@ Fixpoint rp_nodupb (l : list Z) : bool :=
   match l with
   | [] => true
   | x :: t => negb (existsb (Z.eqb x) t) && rp_nodupb t
+  end.
+
+(* ---------------------------------------------------------------------------------------
+   The specification: RFC 8613 section 7.4 sliding window over the set of accepted numbers.
+   [rp_a_seen] is the list of all sequence numbers accepted so far (newest first), [rp_a_hi]
+   the highest of them.  A window of size W remembers hi-W+1 .. hi; the implementation keeps
+   64 bits, so sizes above 64 behave like 64. *)
+Record rp_abs := { rp_a_armed : bool; rp_a_hi : Z; rp_a_seen : list Z }.
+Definition rp_abs_init : rp_abs := Build_rp_abs false 0 [].
+
+Definition rp_weff (W : Z) : Z := Z.min W 64.
+
+Definition rp_mem (x : Z) (l : list Z) : bool := existsb (Z.eqb x) l.
+
+(* would this number pass the replay check now? *)
+Definition rp_abs_fresh (W : Z) (a : rp_abs) (seq : Z) : bool :=
+  (seq <? rp_seq_max) &&
+  (if rp_a_armed a then
+     (seq >? rp_a_hi a) || ((rp_a_hi a - seq <? rp_weff W) && negb (rp_mem seq (rp_a_seen a)))
+   else true).
+
+Definition rp_abs_accept (a : rp_abs) (seq : Z) : rp_abs :=
+  Build_rp_abs true (if rp_a_armed a then Z.max (rp_a_hi a) seq else seq) (seq :: rp_a_seen a).
+
+Definition rp_abs_recv_req (W : Z) (b12 : bool) (a : rp_abs) (m : rp_msg) : rp_verdict * rp_abs :=
+  let seq := rp_m_seq m in
+  match rp_m_auth m with
+  | RpUnroutable => (RpRejUnroutable, a)
+  | _ =>
+  if rp_a_armed a then
+    if negb (rp_abs_fresh W a seq) then (RpRejReplay, a)
+    else match rp_m_auth m with
+         | RpForged | RpUnroutable => (RpRejDecrypt, a)
+         | RpGenuine => (RpAccept, rp_abs_accept a seq)
+         end
+  else
+    match rp_m_auth m with
+    | RpForged | RpUnroutable => (RpRejDecrypt, a)
+    | RpGenuine =>
+      let go := if rp_abs_fresh W a seq then (RpAccept, rp_abs_accept a seq) else (RpRejReplay, a) in
+      if b12 then
+        match rp_m_echo m with
+        | RpEchoOk => go
+        | RpEchoBad => (RpRejEchoBad, a)
+        | RpEchoNone => (RpRejChallenge, a)
+        end
+      else go
+    end
+  end.
+
+Definition rp_abs_recv_resp (W : Z) (a : rp_abs) (m : rp_msg) : rp_verdict * rp_abs :=
+  let seq := rp_m_seq m in
+  match rp_m_auth m with
+  | RpUnroutable => (RpRejUnroutable, a)
+  | RpForged => if negb (rp_abs_fresh W a seq) then (RpRejReplay, a) else (RpRejDecrypt, a)
+  | RpGenuine =>
+    if negb (rp_abs_fresh W a seq) then (RpRejReplay, a)
+    else if rp_a_armed a then (RpAccept, rp_abs_accept a seq)
+    else (RpAcceptUnchecked, a)
+  end.
+
+Definition rp_abs_recv (W : Z) (b12 : bool) (a : rp_abs) (m : rp_msg) : rp_verdict * rp_abs :=
+  match rp_m_kind m with
+  | RpRequest => rp_abs_recv_req W b12 a m
+  | RpResponse => rp_abs_recv_resp W a m
+  end.
+
+Fixpoint rp_abs_run (W : Z) (b12 : bool) (a : rp_abs) (h : list rp_msg)
+  : list rp_verdict * rp_abs :=
+  match h with
+  | [] => ([], a)
+  | m :: t => let '(r, a1) := rp_abs_recv W b12 a m in
+              let '(rs, a2) := rp_abs_run W b12 a1 t in (r :: rs, a2)
   end.
